@@ -121,11 +121,6 @@ impl Obs {
 mod imp {
     use super::*;
 
-    pub static mut N_SEND: usize = 0;
-    pub static mut N_ERR: usize = 0;
-    pub static mut N_FATAL: usize = 0;
-    pub static mut REPS: [Rep; MAXREP] = [NOREP; MAXREP];
-
     /// What the last `format!`/`write!` call looked like (see `peek`).
     #[derive(Clone, Copy)]
     pub struct FmtRec {
@@ -136,21 +131,48 @@ mod imp {
         pub litp: *const u8,
     }
     pub const NOFMT: FmtRec = FmtRec { has_lead: false, lead: 0, lit: [0; 8], nlit: 0, litp: core::ptr::null() };
-    /// the most recent `format!` whose template is `{u64:#X}: ...` (the `0x<pos>: ` convention)
-    pub static mut LAST_POSFMT: FmtRec = NOFMT;
-    pub static mut HAVE_POSFMT: bool = false;
-    /// the most recent `format!` result that starts with a `[E` literal
-    pub static mut LAST_CODE: [u8; 6] = [0; 6];
-    pub static mut HAVE_CODE: bool = false;
+
+    /// ALL mutable observation state lives in ONE static whose initial bytes are unique (`magic`).
+    /// Reason: Kani 0.68 materialises constants of struct type (e.g. `RawVec`'s `Cap::ZERO` behind
+    /// `Vec::new()`) by looking up an allocation with the same bytes, and a `static mut X: usize = 0`
+    /// qualifies: `Vec::new()` then READS ITS CAPACITY FROM X, also after X was incremented (seen as
+    /// spurious `__rust_dealloc` failures in a writer harness; found by reading the goto program:
+    /// `RawVecInner::new_in` assigned `*(Cap*)&N_WRITES`). A static whose whole content no constant
+    /// can equal is never chosen. Keep it that way: no `static mut` with all-zero or otherwise
+    /// ordinary initial bytes anywhere in the harness code, and no constant equal to a whole static.
+    pub struct VState {
+        magic: u64,
+        /// the most recent `format!` whose template is `{u64:#X}: ...` (the `0x<pos>: ` convention)
+        pub last_posfmt: FmtRec,
+        pub have_posfmt: bool,
+        /// the most recent `format!` result that starts with a `[E` literal
+        pub last_code: [u8; 6],
+        pub have_code: bool,
+        pub n_send: usize,
+        pub n_err: usize,
+        pub n_fatal: usize,
+        pub reps: [Rep; MAXREP],
+    }
+    pub static mut ST: VState = VState {
+        magic: 0x5645_5249_465F_5354,
+        last_posfmt: NOFMT,
+        have_posfmt: false,
+        last_code: [0; 6],
+        have_code: false,
+        n_send: 0,
+        n_err: 0,
+        n_fatal: 0,
+        reps: [NOREP; MAXREP],
+    };
 
     pub fn reset() {
         unsafe {
-            N_SEND = 0;
-            N_ERR = 0;
-            N_FATAL = 0;
-            REPS = [NOREP; MAXREP];
-            HAVE_POSFMT = false;
-            HAVE_CODE = false;
+            ST.n_send = 0;
+            ST.n_err = 0;
+            ST.n_fatal = 0;
+            ST.reps = [NOREP; MAXREP];
+            ST.have_posfmt = false;
+            ST.have_code = false;
         }
     }
 
@@ -245,20 +267,20 @@ mod imp {
     fn note(r: &FmtRec) {
         unsafe {
             if r.has_lead {
-                LAST_POSFMT = *r;
-                HAVE_POSFMT = true;
+                ST.last_posfmt = *r;
+                ST.have_posfmt = true;
                 // "{pos:#X}: [E59] literal" carries its own code
                 if r.nlit >= 8 && r.lit[2] == b'[' && r.lit[3] == b'E' {
                     unroll!(6, k, {
-                        LAST_CODE[k] = r.lit[2 + k];
+                        ST.last_code[k] = r.lit[2 + k];
                     });
-                    HAVE_CODE = true;
+                    ST.have_code = true;
                 }
             } else if r.nlit >= 6 && r.lit[0] == b'[' && r.lit[1] == b'E' {
                 unroll!(6, k, {
-                    LAST_CODE[k] = r.lit[k];
+                    ST.last_code[k] = r.lit[k];
                 });
-                HAVE_CODE = true;
+                ST.have_code = true;
             }
         }
     }
@@ -303,7 +325,7 @@ mod imp {
     /// forgotten (its drop glue is not the subject).
     pub fn stub_send<T>(_s: &flume::Sender<T>, m: T) -> Result<(), flume::SendError<T>> {
         unsafe {
-            N_SEND += 1;
+            ST.n_send += 1;
         }
         super::classify(&m);
         core::mem::forget(m);
@@ -312,28 +334,28 @@ mod imp {
 
     pub fn record_error_from_formats() {
         unsafe {
-            if N_ERR < MAXREP {
+            if ST.n_err < MAXREP {
                 let mut r = NOREP;
-                if HAVE_POSFMT {
-                    r.pos = LAST_POSFMT.lead;
+                if ST.have_posfmt {
+                    r.pos = ST.last_posfmt.lead;
                     r.has_pos = true;
                 }
-                if HAVE_CODE {
-                    r.code = LAST_CODE;
+                if ST.have_code {
+                    r.code = ST.last_code;
                 }
-                REPS[N_ERR] = r;
+                ST.reps[ST.n_err] = r;
             }
-            N_ERR += 1;
-            HAVE_POSFMT = false;
-            HAVE_CODE = false;
+            ST.n_err += 1;
+            ST.have_posfmt = false;
+            ST.have_code = false;
         }
     }
 
     /// stub for `crate::analyze::validators::its::util::report_error`
     pub fn stub_report_error<T>(mem_pos: u64, err: &str, word_slice: &[u8], _sender: &flume::Sender<T>) {
         unsafe {
-            N_SEND += 1;
-            if N_ERR < MAXREP {
+            ST.n_send += 1;
+            if ST.n_err < MAXREP {
                 let mut r = NOREP;
                 r.pos = mem_pos;
                 r.has_pos = true;
@@ -347,16 +369,16 @@ mod imp {
                     r.word[k] = word_slice[k];
                 });
                 r.has_word = true;
-                REPS[N_ERR] = r;
+                ST.reps[ST.n_err] = r;
             }
-            N_ERR += 1;
-            HAVE_POSFMT = false;
-            HAVE_CODE = false;
+            ST.n_err += 1;
+            ST.have_posfmt = false;
+            ST.have_code = false;
         }
     }
 
     pub fn snapshot() -> Obs {
-        unsafe { Obs { n_send: N_SEND, n_err: N_ERR, n_fatal: N_FATAL, reps: REPS } }
+        unsafe { Obs { n_send: ST.n_send, n_err: ST.n_err, n_fatal: ST.n_fatal, reps: ST.reps } }
     }
 }
 
